@@ -111,6 +111,8 @@ pub enum Spec {
     BadTags(u8),
     /// name/url forms: form index
     NameUrl(u8),
+    /// mapping forms and padded forms
+    NameUrlMore(u8),
     BadNameUrl(u8),
     Locale(u8),
     BadLocale(u8),
@@ -138,7 +140,7 @@ const SERVING_WORDS: &[&str] = &["", " servings", " cups worth", " big", " small
 const TAG_POOL: &[&str] = &["vegan", "quick", "", "2022", "gluten free", "vegan", " spicy ", "a", "\u{a0}soup\u{a0}", "\u{3000}", "\u{2003}tea", " soup\u{a0}", "\u{2009}"];
 const BAD_TIMES: &[&str] = &["soon", "1hour30min", "5 parsecs", "-5", "inf", "nan", "1e20", "4294967296", "99999999h", "1h4294967295m", "71582789h", "1 h 4294967295 min", "h", "10 min 5", "1.5.2 h", "1h30", "٣ h", "1h -30min", "+5 min", "2 hours -30 min", "-1 min 2 min", "1 h +5 min", "1e2 min", "0x10 min", "   ", "\t", "-0.4", "-0.49 min", "-0.2h"];
 const BAD_TIME_YAML: &[&str] = &["{prep: 10, cook: until golden}", "{prep: 10, cook: 4294967296}", "{prep: soon}", "{cook: [20]}", "{prep: 10, cook: 2 parsecs}", "[10, 20]", "{prep: -5, cook: 1}", "{prep: 1h, cook: {a: 1}}", "{}", "{foo: 1}", "{preparation: 10}", "12.5", "7.5", "{prep: 2.5, cook: 10}", "0.4", "-1", "-7", "{cook: 0.5}"];
-const BAD_SERVINGS: &[&str] = &["many", "2|2", "1|2|1", "x2", "-3", "4294967296", "|", "3 | many"];
+const BAD_SERVINGS: &[&str] = &["many", "2|2", "1|2|1", "x2", "-3", "4294967296", "|", "3 | many", "2|4|", "|2", "2||4", "2|4| ", "2 |", "||"];
 const LOCALES: &[&str] = &["en", "es_ES", "en_gb", "DE", "pt_BR"];
 const BAD_LOCALES: &[&str] = &["english", "e", "en-GB", "en_GBR", "e1", "en_", "_GB", "ça", "en_G1"];
 
@@ -278,6 +280,22 @@ fn render(c: &Case) -> (String, Option<String>, Expect, &'static [&'static str])
             let old = s.trim().to_string();
             (yaml_quote(&s), Some(old), Expect::NameUrl(Some((name.map(String::from), u.map(String::from)))), WHO_KEYS)
         }
+        Spec::NameUrlMore(i) => {
+            let url = ["https://a.b/c", "https://web.archive.org/web/2020/https://example.com/p"][(*i as usize / 8) % 2];
+            // (yaml, `>>` text if the form is a string, name, url)
+            let (y, old, name, u): (String, Option<String>, Option<&str>, Option<&str>) = match i % 8 {
+                0 => (format!("{{name: Mom, url: \"{url}\"}}"), None, Some("Mom"), Some(url)),
+                1 => (format!("{{name: \"  Mom  \", url: \"  {url}  \"}}"), None, Some("Mom"), Some(url)),
+                2 => ("{name: Ann, url: \"  \"}".into(), None, Some("Ann"), None),
+                3 => (format!("{{url: \"{url}\"}}"), None, None, Some(url)),
+                4 => ("{name: Ann}".into(), None, Some("Ann"), None),
+                5 => (format!("{{url: \"{url}\", name: \"\", extra: 1}}"), None, None, Some(url)),
+                // blanks inside the brackets: the URL is what is between them without the padding
+                6 => (yaml_quote(&format!("Ann < {url} >")), Some(format!("Ann < {url} >")), Some("Ann"), Some(url)),
+                _ => (yaml_quote(&format!("<  {url}\t>")), Some(format!("<  {url}\t>")), None, Some(url)),
+            };
+            (y, old, Expect::NameUrl(Some((name.map(String::from), u.map(String::from)))), WHO_KEYS)
+        }
         Spec::BadNameUrl(i) => {
             let y = ["[a, b]", "true", "{nome: x}", "~"][*i as usize % 4];
             (y.to_string(), None, Expect::NameUrl(None), WHO_KEYS)
@@ -362,7 +380,7 @@ pub fn oracle(c: &Case, st: &mut Stats) -> Verdict {
         Spec::Minutes { .. } | Spec::Compact { .. } | Spec::Pairs(_) | Spec::BadTime(_) => "time",
         Spec::ServingsInt(_) | Spec::ServingsList { .. } | Spec::BadServings(_) => "servings",
         Spec::Tags { .. } | Spec::BadTags(_) => "tags",
-        Spec::NameUrl(_) | Spec::BadNameUrl(_) => "author/source",
+        Spec::NameUrl(_) | Spec::NameUrlMore(_) | Spec::BadNameUrl(_) => "author/source",
         _ => "locale",
     });
     st.class(["empty converter", "bundled converter", "renamed-units converter", "converter without a minutes unit"][(c.conv % 4) as usize]);
@@ -503,6 +521,7 @@ fn spec() -> impl Strategy<Value = Spec> {
         2 => (proptest::collection::vec(any::<u8>(), 0..6), any::<bool>()).prop_map(|(items, as_list)| Spec::Tags { items, as_list }),
         1 => any::<u8>().prop_map(Spec::BadTags),
         2 => any::<u8>().prop_map(Spec::NameUrl),
+        1 => any::<u8>().prop_map(Spec::NameUrlMore),
         1 => any::<u8>().prop_map(Spec::BadNameUrl),
         1 => any::<u8>().prop_map(Spec::Locale),
         1 => any::<u8>().prop_map(Spec::BadLocale),
